@@ -502,6 +502,13 @@ func genFacts() {
 		f["vacuumDeletesSupersededFirst"] = leanBool(strings.Contains(kvs.text(kvs.fn("DB.getHistoricRootsAndNodes").Body), "roots = make([]string, 0, len(candidateRoots)) ordered := make(map[string]bool, len(candidateRoots)) var supersededFirst func(name string) supersededFirst = func(name string) { if ordered[name] { return } ordered[name] = true if root, ok := rootCacheByName[name]; ok { for _, parent := range root.MergeSources { if _, ok := candidateRoots[parent]; ok { supersededFirst(parent) } } } roots = append(roots, name) } for k := range candidateRoots { supersededFirst(k) } return roots, nodes, nil") &&
 			strings.Contains(kvs.text(kvs.fn("DeleteHistoricVersions").Body), "for _, l := range roots { _, err := s.s3Client.DeleteObjectWithContext(ctx, &s3.DeleteObjectInput{ Key: aws.String(s.merged.Prefix + l),"))
 		f["roSyncEndsTransaction"] = leanBool(strings.HasPrefix(vt.text(vt.fn("VirtualTable.Sync").Body), "{ if c.common.S3Options.ReadOnly { return toSqlite(c.common.Rollback()) }"))
+		{
+			vtx := vc.text(vc.fn("Vacuum").Body)
+			f["vacuumRemembersFailedCommit"] = leanBool(
+				strings.Contains(vtx, "err = db.RemoveTombstones(ctx, beforeTime) if err != nil { table.commitFailed = true return fmt.Errorf(") &&
+					strings.Contains(vtx, "_, err = db.Commit(ctx) if err != nil { table.commitFailed = true return fmt.Errorf(") &&
+					strings.Count(vc.text(vc.file), "table.commitFailed = true") == 2)
+		}
 		f["emptyVersionForgotten"] = leanBool(strings.Contains(kvs.text(kvs.fn("DeleteHistoricVersions").Body), "s.crdt.Source = nil s.crdt.MergeSources = nil s.mergedRoots = map[string][]byte{}"))
 	}
 	rt := kvs.fn("DB.RemoveTombstones")
